@@ -257,3 +257,56 @@ def expand_function(fn: ast.FunctionDef, resolve: t.Callable[[ast.Call], t.Optio
             if not hasattr(x, 'lineno') and isinstance(x, (ast.expr, ast.stmt)):
                 x.lineno = fn.lineno          # type: ignore[attr-defined]
     return n
+
+
+def inline_method_aliases(fn: ast.FunctionDef) -> int:
+    """``add = items.append`` ... ``add(x)``  ->  ``items.append(x)``: a local bound once to a method (an attribute of a name or of
+    an attribute chain) and only ever *called* is replaced by the attribute at its call sites, so rules that look at what is
+    called on an object see through the micro-optimisation.  Returns the number of call sites rewritten."""
+    stores: t.Dict[str, int] = {}
+    for x in ast.walk(fn):
+        if isinstance(x, ast.Name) and isinstance(x.ctx, (ast.Store, ast.Del)):
+            stores[x.id] = stores.get(x.id, 0) + 1
+    params = {a.arg for a in fn.args.args + fn.args.kwonlyargs + fn.args.posonlyargs}
+    for extra in (fn.args.vararg, fn.args.kwarg):
+        if extra is not None:
+            params.add(extra.arg)
+    parent: t.Dict[int, ast.AST] = {}
+    for p in ast.walk(fn):
+        for ch in ast.iter_child_nodes(p):
+            parent[id(ch)] = p
+    aliases: t.Dict[str, ast.Attribute] = {}
+    for st in ast.walk(fn):
+        if isinstance(st, ast.Assign) and len(st.targets) == 1 and isinstance(st.targets[0], ast.Name) and isinstance(st.value, ast.Attribute):
+            nm = st.targets[0].id
+            if nm in params or stores.get(nm, 0) != 1:
+                continue
+            root: ast.AST = st.value
+            while isinstance(root, ast.Attribute):
+                root = root.value
+            if not isinstance(root, ast.Name):
+                continue
+            if root.id not in params and stores.get(root.id, 0) > 1:
+                continue
+            # the assignment must not sit inside a loop or branch deeper than the uses can see: require function top level
+            if parent.get(id(st)) is not fn:
+                continue
+            aliases[nm] = st.value
+    if not aliases:
+        return 0
+    ok = {nm: True for nm in aliases}
+    for x in ast.walk(fn):
+        if isinstance(x, ast.Name) and isinstance(x.ctx, ast.Load) and x.id in aliases:
+            par = parent.get(id(x))
+            if not (isinstance(par, ast.Call) and par.func is x):
+                ok[x.id] = False
+    n = 0
+    for x in ast.walk(fn):
+        if isinstance(x, ast.Call) and isinstance(x.func, ast.Name) and x.func.id in aliases and ok[x.func.id]:
+            new = _clone(aliases[x.func.id])
+            ast.copy_location(new, x.func)
+            for y in ast.walk(new):
+                ast.copy_location(y, x.func)
+            x.func = new
+            n += 1
+    return n
